@@ -77,6 +77,7 @@ type SimStream struct {
 	SeekNil   bool
 	SeekSeq   int
 	SeekTs    uint64
+	SeekCh    string // channel name carried by the seek position
 }
 
 func NewSimMQ(s *Sim, logs map[string][]*REntry, colls func(int64) *RColl) *SimMQ {
@@ -184,6 +185,7 @@ func (m *SimMQ) register(ctx context.Context, cid string, cfg *msgdispatcher.Str
 		}
 		st.SeekSeq = seq
 		st.SeekTs = cfg.Pos.Timestamp
+		st.SeekCh = cfg.Pos.ChannelName
 		log := m.Logs[pch]
 		st.next = sort.Search(len(log), func(i int) bool { return log[i].Seq >= seq })
 		st.filterTs = cfg.Pos.Timestamp
